@@ -48,7 +48,11 @@ template<typename S> S romea_verif_point_api(S a, S b, S c)
   HomogeneousCoordinates3<S> h3(a, b, c);
   CartesianCoordinates2<S> c2(a, b);
   CartesianCoordinates3<S> c3(a, b, c);
-  return PolarTransform::azimut(h2) + PolarTransform::range(h2) + PolarTransform::azimut(c2) + PolarTransform::range(c2) +
+  PolarCoordinates<S> pc(a, b);
+  SphericalCoordinates<S> sc(a, b, c);
+  HomogeneousCoordinates2<S> hp = toHomogeneous(pc);
+  HomogeneousCoordinates3<S> hs = toHomogeneous(sc);
+  return hp[0] + hs[0] + PolarTransform::azimut(h2) + PolarTransform::range(h2) + PolarTransform::azimut(c2) + PolarTransform::range(c2) +
          SphericalTransform::azimut(h3) + SphericalTransform::range(h3) + SphericalTransform::elevation(h3) +
          SphericalTransform::azimut(c3) + SphericalTransform::range(c3) + SphericalTransform::elevation(c3);
 }
